@@ -16,6 +16,9 @@ THEOREMS = ["TLVerif.Props.C41." + t for t in [
     "tree_empty", "tree_set_refines", "tree_delete_refines", "tree_get_refines", "tree_front_refines",
     "tree_back_refines", "tree_empty_refines", "tree_lenMoreThan1_refines", "tree_validate_ok", "tree_history_refines",
     "witness_chain", "avl_strict_fails_at", "avl_balance_partial", "avl_strict_after_fix", "avl_strict_iff",
+    "circ_empty", "circ_push_refines", "circ_pop_refines", "circ_front_refines", "circ_index_refines", "circ_len_cap",
+    "circ_slices_refines", "circ_reserve_refines", "circ_clear_refines", "circ_swap_deepAssign", "circ_step_refines",
+    "circ_history_refines", "circ_panics_only_on_misuse", "circ_capacity",
 ]]
 
 # The shortest history on which strict AVL balance fails on the unchanged code (DESIGN §6 L1); key of the known finding.
